@@ -32,7 +32,7 @@ CLAIM = {
             "TinyLine::new (indentation strip, split at the separator), next/end/into_names/into_namespaces and the struct literals of "
             "read into every model field, and from every model field into its hole of the writer template, a cell passes only through "
             "selections, ownership/From/TryFrom/parse conversions (comments: escape/unescape) - any other call (trim, case change, "
-            "slicing, a helper that does not return its argument unchanged, `.map(path_fn)`) is reported with the call named.",
+            "slicing, a helper that does not return its argument unchanged, `.map(path_fn)`) is reported with the call named. (R03.10) every writer loop over a map of the model emits a row for every entry (no dropping adaptor or mutation, no continue/break); (R03.2) the sort key is an injective view of the key fields (no case folding or other lossy function).",
     "note": "Not decided: the inverse law and the byte-identical fix-point for all contents (values of names/descriptors containing "
             "the separator, validity conversions, unicode), termination; the Display/FromStr/TryFrom impls a cell is converted by are "
             "taken to be mutually inverse; format options of a hole (width/fill) are not in the facts. Known findings: Mappings.javadoc is written but cannot be "
